@@ -257,10 +257,28 @@ def oracle(ctx):
             rc, so, se = e2e.run_binary(args + [out], os.path.join(base, 'src'), timeout=10)
             by = ('zz-bystander-pod.service' in so) if '--dry-run' in args else os.path.isfile(os.path.join(out, 'zz-bystander-pod.service'))
             r.append((rc, se[-400:] + ('' if by or rc not in (0, 1) else ' [BYSTANDER-MISSING]')))
+        # the place the dry run prints to is part of the run too: a full device or a reader that went away (D25: the generator panicked)
+        import subprocess
+        env = {k: v for k, v in os.environ.items() if k not in ('PODMAN', 'QUADLET_UNIT_DIRS')}
+        env['QUADLET_UNIT_DIRS'] = os.path.join(base, 'src')
+        for sink in ('full', 'closed-pipe'):
+            try:
+                if sink == 'full':
+                    with open('/dev/full', 'w') as f:
+                        p = subprocess.run([core.BIN, '--dry-run', '--no-kmsg-log'], env=env, stdout=f, stderr=subprocess.PIPE, timeout=10)
+                    rc, se = p.returncode, p.stderr.decode('utf-8', 'replace')
+                else:
+                    pr = subprocess.Popen([core.BIN, '--dry-run', '--no-kmsg-log'], env=env, stdout=subprocess.PIPE, stderr=subprocess.PIPE)
+                    pr.stdout.close()   # nobody reads: the first write fails with EPIPE
+                    se = pr.stderr.read().decode('utf-8', 'replace')
+                    rc = pr.wait(timeout=10)
+            except subprocess.TimeoutExpired:
+                rc, se = 'timeout', ''
+            r.append((rc, f'[stdout {sink}] ' + se[-300:]))
         shutil.rmtree(base, ignore_errors=True)
         return r
     for files, rs in zip(trees_, e2e.pmap(run, trees_)):
-        for (rc, se), mode in zip(rs, ('--dry-run', 'normal run', 'normal run, logging to /dev/kmsg, -v', 'normal run, logging to /dev/kmsg')):
+        for (rc, se), mode in zip(rs, ('--dry-run', 'normal run', 'normal run, logging to /dev/kmsg, -v', 'normal run, logging to /dev/kmsg', '--dry-run printing to /dev/full', '--dry-run printing to a pipe nobody reads')):
             res.oracle_evals += 1
             if rc in (0, 1) and '[BYSTANDER-MISSING]' in se and not any(k.endswith(b'zz-bystander.pod') or b'zz-bystander' in k for k in files):
                 res.oracle_failures.append(dict(op='e2e', input={k.decode('utf-8', 'backslashreplace')[:300]: (str(v) if isinstance(v, tuple) else v.decode('utf-8', 'backslashreplace')[:300]) for k, v in files.items()},
